@@ -31,17 +31,17 @@ def run(pid, tier):
         res.add_broken("K6 harness does not compile against /repo", b["log"])
     for c in out["crashes"][:2]:
         res.add_broken("K6 harness crashed (rc=%s) at request `%s`" % (c["rc"], c["at_request"]), c["tail"])
-        res.add_failing({"what": "crash of the C wrapper / table", "requests": c["prefix"], "tail": c["tail"]})
+        res.add_failing({"what": "crash of the C wrapper / table", "types": c.get("types"), "requests": c["prefix"], "tail": c["tail"]})
     mine = [f for f in out["findings"] if pid in f["properties"]]
     for f in mine[:4]:
-        res.add_failing({"what": f["answer"], "request": f["request"], "requests": f["prefix"]})
+        res.add_failing({"what": f["answer"], "types": f.get("types"), "request": f["request"], "requests": f["prefix"]})
     if res.failing and not res.broken:
         res.add_broken("K6 oracle: the C wrapper's behaviour violates %s" % pid)
     res.cov.update({
         "evaluations": out["requests"] + out["fault_positions"] + out["prefixes"],
         "distinct_nontrivial": len(out["entry_kinds"]),
         "rule": "K6: random sequences over the C entry points (table, locked table, iterators, file) executed on the wrapper and, in lock step, "
-                "on a cuckoohash_map<int,int>; compared: every return value / out-parameter, contents, iteration order both ways; every C call "
+                "on a cuckoohash_map of the same types (instantiations int->int, int->long long, long long->short); compared: every return value / out-parameter, contents, iteration order both ways; every C call "
                 "wrapped in catch(...); `sweep` fails the k-th global allocation for every reachable k (errno==ENOMEM, failure value, contents "
                 "unchanged); written files are re-read whole and at EVERY truncation point (NULL, nothing leaked); one scenario in four uses keys "
                 "colliding in every small table. distinct_nontrivial = distinct request kinds exercised",
@@ -51,7 +51,7 @@ def run(pid, tier):
         "truncation_points": out["prefixes"],
         "request_kinds": out["entry_kinds"],
     })
-    res.assumptions += ["int->int instantiation of the wrapper template; the C++ member semantics are those of C02/C09/C17",
+    res.assumptions += ["three instantiations of the wrapper template (equal and different key/mapped sizes); the C++ member semantics are those of C02/C09/C17",
                         "the forwarding / catch table is extracted by translate/capi_table.py (text scan cross-checked with clang's AST)"]
     return C.finish(res, "proof", "python3 translate/capi_table.py; cd lean && lake build Cuckoo.Props.%s && #print axioms audit; K6 (check/k6check.py)" % pid)
 
@@ -59,11 +59,14 @@ def run(pid, tier):
 def replay(pid, path):
     d = json.load(open(path))
     print(json.dumps(d.get("no_longer_checks", []), indent=1)[:2000])
-    ok, exe, log = k6.harness()
     bad = 0
     for f in d.get("failing_inputs", []):
         if "requests" not in f:
             continue
+        ok, exe, log = k6.harness(tuple(f["types"]) if f.get("types") else k6.TYPES[0])
+        if not ok:
+            print(log)
+            return 2
         rc, res, err = k6.run_scenario(exe, f["requests"])
         print("replay: last answer: %s" % (res[-1] if res else "<none>"))
         if res and (res[-1].startswith("DIFF") or res[-1].startswith("CROSSED") or rc != 0):
